@@ -850,6 +850,50 @@ static void sc_joinpend(std::uint64_t)
     stat("joinpend_interrupted", s->intr.load());
 }
 
+// directed: an interruption request aimed at a thread whose function has ALREADY finished (terminated, handle still joinable)
+// must die with that incarnation.  The thread object is recycled afterwards: a batch of unrelated threads of the same stack
+// class passes an interruption point each; none of them was interrupted by anybody (the driver's monitor "delivered without a
+// request" looks at the ip.* lines; the harness also reports a thread_interrupted that nobody asked for).
+static void sc_staleintr(std::uint64_t seed)
+{
+    rng r{seed};
+    auto hit = std::make_shared<std::atomic<int>>(0);
+    int victims = 2 + int(r.below(3));
+    for (int v = 0; v < victims; ++v)
+    {
+        pika::thread t([=] { activity a; });
+        // the function has returned and the exit processing is over when the state word says `terminated`
+        for (int i = 0; i < 20000; ++i)
+        {
+            if (ptd::get_thread_state(t.native_handle()).state() == ptd::thread_schedule_state::terminated) break;
+            pika::this_thread::yield();
+        }
+        t.interrupt();
+        t.join();
+    }
+    int n = 6 + int(r.below(6));
+    std::vector<pika::thread> later;
+    for (int i = 0; i < n; ++i)
+        later.emplace_back([=] {
+            activity a;
+            try
+            {
+                pika::this_thread::interruption_point();
+                iyield();
+                pika::this_thread::interruption_point();
+            }
+            catch (pika::thread_interrupted const&)
+            {
+                hit->fetch_add(1);
+            }
+        });
+    for (auto& t : later) t.join();
+    if (hit->load() != 0)
+        monitor("staleintr: " + std::to_string(hit->load()) + " thread(s) nobody interrupted received thread_interrupted (a request aimed at a "
+                "finished thread survived the recycling of its thread object)");
+    stat("staleintr_threads", n);
+}
+
 static void scenario(std::string const& prog, std::uint64_t seed)
 {
     rng r{seed};
@@ -869,6 +913,7 @@ static void scenario(std::string const& prog, std::uint64_t seed)
     else if (prog == "dtorterm") k = 10;
     else if (prog == "joinintr") k = 11;
     else if (prog == "joinpend") k = 13;
+    else if (prog == "staleintr") k = 14;
     else k = int(r.below(7));
     std::uint64_t s = r.next();
     switch (k)
@@ -886,6 +931,7 @@ static void scenario(std::string const& prog, std::uint64_t seed)
     case 11: sc_joinintr(s); break;
     case 12: sc_jtswap(s); break;
     case 13: sc_joinpend(s); break;
+    case 14: sc_staleintr(s); break;
     default: sc_jthread(s); break;
     }
 }
